@@ -123,6 +123,13 @@ def billing_index(zone, cal):
     return pd.DatetimeIndex(out)
 
 
+def billed_lengths(cal):
+    """the periods that carry a bill: the calendar is monthly or bi-monthly by the median length of THOSE (the final read, and any
+    trailing reads without an amount, close a period but bill nothing) - the data classes' documented rule"""
+    lens = CALENDARS[cal]
+    return lens[: len(lens) - 1 - TAIL_NAN.get(cal, 0)]
+
+
 def build_billing(zone, cal, sym, env=None):
     midx = billing_index(zone, cal)
     k = len(midx) - 1
@@ -169,7 +176,7 @@ def check_billing(d, midx, env, cal):
     df = d.df
     obs = df["observed"]
     lens = CALENDARS[cal]
-    gran_bi = np.median(lens) > 35
+    gran_bi = np.median(billed_lengths(cal)) > 35
     hi = 70 if gran_bi else 35
     for i, L in enumerate(lens):
         a, b = midx[i], midx[i + 1]
@@ -302,7 +309,7 @@ def run_billing(case, zone, cal):
     case.inputs = [z3.Real(f"b{i}") for i in range(len(lens))]
     with D.symbolic_dataclasses():
         paths = case.explore(lambda: build_billing(zone, cal, True))
-    hi = 70 if np.median(lens) > 35 else 35
+    hi = 70 if np.median(billed_lengths(cal)) > 35 else 35
     for p in paths:
         if p.outcome != "ret":
             case.rep["harness_errors"].append(f"billing data class raised {p.value!r} ({cal})")
